@@ -374,7 +374,7 @@ def case_strategy(ctx, n):
     def cases(draw):
         spec = draw(im.model_strategy(st, min_sites=2, max_sites=4, max_outcomes=48))
         m = len(spec["sites"])
-        mode = draw(st.sampled_from(["dep", "dep", "dep", "indep", "all"]))
+        mode = draw(st.sampled_from(["dep", "dep", "indep", "dep", "all"]))
         if mode == "all":
             sel = list(range(m))
             form = draw(st.sampled_from(["all", "or"]))
@@ -392,8 +392,8 @@ def case_strategy(ctx, n):
             form = draw(st.sampled_from(["or", "not"]))
         alg = None
         if draw(st.integers(0, 9)) < 4 and len(sel) < m:
-            kind = draw(st.sampled_from(["Importance", "ImportanceK"]))
-            alg = {"kind": kind, "k": 1 if kind == "Importance" else draw(st.sampled_from([1, 2, 3])), "s0": draw(st.integers(0, 63))}
+            kind = draw(st.sampled_from(["ImportanceK", "ImportanceK", "Importance"]))
+            alg = {"kind": kind, "k": 1 if kind == "Importance" else draw(st.sampled_from([2, 3, 1])), "s0": draw(st.integers(0, 63))}
         case = {
             "model": spec,
             "sel": sel,
@@ -407,7 +407,9 @@ def case_strategy(ctx, n):
         if alg is not None:
             # the algorithm's proposals are relative to its own target: coherent with the
             # Marginal's weight only if no unselected site depends on a selected one
-            coherent = not (im.descendants(spec, sel) - set(sel))
+            # (and ImportanceK.run_csmc must not hit C26's importancek_csmc_stack: K = 1 or non-scalar leaves)
+            nonscalar = (spec.get("arg") or {}).get("kind") == "vector" or any(s_["kind"] in im.VEC or s_["kind"] == "cat" for s_ in spec["sites"])
+            coherent = not (im.descendants(spec, sel) - set(sel)) and (alg["kind"] == "Importance" or (alg["k"] >= 2 and not nonscalar))
             case["rw_alg"] = bool(coherent and not rw_alg_open)
             case["rw_alg_coherent"] = bool(coherent)
         return case
@@ -442,9 +444,14 @@ def run(ctx):
     import jax
 
     n = ctx.pick(100_000, 400_000)
-    state = {"n": 0}
+    state = {"n": 0, "started": False}
 
     def chk(case):
+        if not state["started"]:
+            # Hypothesis always starts with the all-minimal example (identical in every shard)
+            state["started"] = True
+            ctx.count("skipped-minimal-example")
+            return
         cr = CaseRef(case)
         cl = classes_of(case) + ["weight:exact" if cr.exact() else "weight:random"]
         ctx.note_case(case, nontrivial=is_nontrivial(case) and not cr.exact(), classes=cl)
@@ -460,7 +467,7 @@ def run(ctx):
             if state["n"] % 3 == 0:
                 jax.clear_caches()
 
-    ctx.run_hypothesis(case_strategy(ctx, n), chk, ctx.pick(2, 6), salt="main")
+    ctx.run_hypothesis(case_strategy(ctx, n), chk, ctx.pick(3, 7), salt="main")
 
 
 def replay(ctx, case):
